@@ -988,6 +988,60 @@ fn generate_function_inner(
         )?)
     } else {
         let mut statements = Vec::new();
+
+        // A parameter of array type is a pointer to the array of the caller in C++
+        // The function works on a copy like it does in the source language
+        for (index, param) in decl.params.iter().enumerate() {
+            let unmodified_id = context
+                .module
+                .type_registry
+                .remove_modifier(param.param_type.type_id);
+            let is_array = matches!(
+                context.module.type_registry.get_type_layer(unmodified_id),
+                ir::TypeLayer::Array(_, Some(_))
+            );
+            if param.param_type.input_modifier == ir::InputModifier::In && is_array {
+                let name = context.get_variable_name(param.id)?.to_string();
+                // TODO: Non conflicting local name generation
+                let pointer_name = format!("__{}", name);
+
+                fn rename(declarator: &mut ast::Declarator, name: &str) {
+                    match declarator {
+                        ast::Declarator::Empty => {}
+                        ast::Declarator::Identifier(id, _) => {
+                            *id = ast::ScopedIdentifier::trivial(name)
+                        }
+                        ast::Declarator::Pointer(p) => rename(&mut p.inner, name),
+                        ast::Declarator::Reference(r) => rename(&mut r.inner, name),
+                        ast::Declarator::Array(a) => rename(&mut a.inner, name),
+                    }
+                }
+                rename(&mut params[index].declarator, &pointer_name);
+
+                let (ty, declarator) =
+                    generate_type_and_declarator(param.param_type.type_id, &name, false, context)?;
+                statements.push(ast::Statement {
+                    kind: ast::StatementKind::Var(ast::VarDef {
+                        local_type: ty,
+                        defs: Vec::from([ast::InitDeclarator {
+                            declarator,
+                            location_annotations: Vec::new(),
+                            init: None,
+                        }]),
+                    }),
+                    location: SourceLocation::UNKNOWN,
+                    attributes: Vec::new(),
+                });
+                statements.push(generate_copy_statement(
+                    ast::Expression::Identifier(ast::ScopedIdentifier::trivial(&name)),
+                    ast::Expression::Identifier(ast::ScopedIdentifier::trivial(&pointer_name)),
+                    param.param_type.type_id,
+                    0,
+                    context,
+                ));
+            }
+        }
+
         for statement in &decl.scope_block.0 {
             statements.push(generate_statement(statement, context)?);
         }
